@@ -129,6 +129,13 @@ class C05(Prop):
         for _ in range(20 if ctx.tier == "quick" else 200):
             s = rand_bytes(r, r.randrange(0, 3000))
             yield ("SCAN " + hx(s), "random", s.count(0xD3) >= 2)
+        # buffers ending exactly at a frame boundary, or with 1..7 trailing bytes of different kinds
+        for nf in (1, 2, 3):
+            fs = b"".join(mk_frame(payload_for(r, r.choice([0, 2, 5, 30]), r.choice(SUPPORTED))) for _ in range(nf))
+            for k in range(0, 8):
+                for tail in (bytes(k), b"\xd3" * k, (b"\xd3\x00\x00" * 3)[:k], rand_bytes(r, k)):
+                    yield ("ITER " + hx(fs + tail), "trailing-bytes", True)
+                    yield ("ITER " + hx(rand_bytes(r, r.randrange(1, 9)).replace(b"\xd3", b"\x01") + fs + tail), "garbage-then-frames", True)
         # long frames
         for L in (1023, 1000, 512):
             f = mk_frame(payload_for(r, L, 1077))
